@@ -707,7 +707,8 @@ fn stream_planner(faulty: bool, connect_faults_ok: bool, led_faults: Arc<std::sy
                     led_faults.lock().unwrap().push(sim::seq());
                 }
                 9 => {
-                    p.delay_ms = 50 + sim::draw("net.connect_delay", 3000);
+                    // Slow - or hanging for longer than any response timeout.
+                    p.delay_ms = if sim::chance("net.connect_hangs", 1, 3) { 40_000 } else { 50 + sim::draw("net.connect_delay", 3000) };
                     sim::stat("fault.connect_slow");
                     led_faults.lock().unwrap().push(sim::seq());
                 }
@@ -916,11 +917,18 @@ async fn run(_tier: Tier) {
     };
 
     // Workload.
-    let n_clients = 1 + sim::draw("n_clients", 4) as usize;
+    // Usually a handful of callers; now and then a crowd of ten to sixteen
+    // with a request or two each, all at once (more than the transports'
+    // internal queues hold).
+    let crowd = sim::chance("crowd", 1, 8);
+    if crowd {
+        sim::stat("probe.crowd_of_callers");
+    }
+    let n_clients = if crowd { 10 + sim::draw("n_clients_crowd", 7) as usize } else { 1 + sim::draw("n_clients", 4) as usize };
     let mut k = 0usize;
     let mut handles = Vec::new();
     for c in 0..n_clients {
-        let n = 1 + sim::draw("n_reqs", 5) as usize;
+        let n = if crowd { 1 + sim::draw("n_reqs_crowd", 2) as usize } else { 1 + sim::draw("n_reqs", 5) as usize };
         let ks: Vec<usize> = (k..k + n).collect();
         k += n;
         let gaps: Vec<u64> = (0..n)
